@@ -1715,16 +1715,18 @@ func (t *TBtree) Close() error {
 
 	t.closed = true
 
-	if t.root.tsMutated() {
-		if err := t.writeTsFile(); err != nil {
-			return err
-		}
-	}
+	tsMutated := t.root.tsMutated()
 
 	merrors := multierr.NewMultiErr()
 
 	_, _, err := t.flushTree(0, true, false, "close")
 	merrors.Append(err)
+
+	// the timestamp file must not run ahead of the flushed tree: it is written
+	// only once everything indexed up to that timestamp is on disk
+	if err == nil && tsMutated {
+		merrors.Append(t.writeTsFile())
+	}
 
 	err = t.nLog.Close()
 	merrors.Append(err)
